@@ -193,7 +193,7 @@ class PanicSafety:
                 if e.lv[0] != 'fld' or e.extra.get('via') == 'ptr::write':
                     continue        # raw element writes are WRITE ops (from the call event), not length commits
                 k = classify_store(I, e)
-                if k[0] in ('UP', 'DOWN', 'ZERO', 'SET'):
+                if k[0] in ('UP', 'DOWN', 'ZERO', 'SET', 'LOWER'):
                     add(e.block, (k[0], e, k[1]))
             elif e.kind == 'call':
                 c = e.extra.get('callee') or {}
@@ -310,10 +310,17 @@ class PanicSafety:
                     amp = 1
                     holes = 0
                 elif op == 'SET':
-                    holes = 0
-                    pend = 0
-                    ahead = 0
-                    amp = 0
+                    if holes or pend or ahead or behind:
+                        # commits what the preceding moves / writes prepared
+                        holes = 0
+                        pend = 0
+                        ahead = 0
+                        amp = 0
+                    else:
+                        # a length set to a new value with nothing written or moved beforehand: if user code runs next,
+                        # the length may cover slots that are not initialised yet (set_len(n) before filling)
+                        ahead = 1
+                        amp = 0
             ns = (holes, behind, pend, ahead, amp)
             out_state[bi] = ns if bi not in out_state else (max(out_state[bi][0], ns[0]), 0, 0, 0, min(out_state[bi][4], ns[4]))
             for s in g.succ[bi]:
@@ -393,4 +400,24 @@ def classify_value(I, e, v, fld, selfarg, old=None):
                 return 'DOWN'
     if v[0] == 'app' and v[1] == 'wsub':
         return 'DOWN'
+    # a value proved not to exceed the current length only lowers it (leak amplification, never exposes a slot)
+    cur = None
+    if selfarg is not None:
+        base = selfarg[1] if selfarg[0] == 'addr' else ('deref', selfarg)
+        cur = I.read(e.state.copy(), ('fld', base, fld))
+    elif old is not None:
+        cur = old
+    if cur is not None:
+        # the field is exclusively borrowed by the method: a re-read after an opaque call denotes the same length (assumption U)
+        cands = [cur]
+        if cur[0] == 'load':
+            for f in e.state.facts:
+                for t in subterms(f):
+                    if isinstance(t, tuple) and t and t[0] == 'load' and t[1] == cur[1] and t not in cands:
+                        cands.append(t)
+        try:
+            if any(P.le(v, c0) for c0 in cands[:4]):
+                return 'LOWER'
+        except RecursionError:
+            pass
     return 'SET'
